@@ -5,7 +5,7 @@
    validation rests on. *)
 From Avo Require Import Base.Prelude.
 From stdpp Require Import gmap.
-From Avo Require Import Base.MaskSet Model.IR Model.RegFile Model.Liveness Model.Alloc Model.Cleanup Model.Pipeline Model.Sem Proofs.LivenessProofs Proofs.AllocProofs Proofs.SimProofs Proofs.SimLink Proofs.SimValidator.
+From Avo Require Import Base.MaskSet Model.IR Model.RegFile Model.Liveness Model.Alloc Model.Cleanup Model.Pipeline Model.Sem Proofs.LivenessProofs Proofs.AllocProofs Proofs.SimProofs Proofs.SimLink Proofs.SimValidator Proofs.LivenessTerm Proofs.AllocLoop Proofs.AllocCorrect Proofs.AllocSim.
 Open Scope N_scope.
 
 (* the liveness used by the allocator is exactly path liveness (C02), in particular it is complete:
@@ -48,6 +48,45 @@ Theorem regalloc_preserves_semantics :
       /\ (forall l, LIn r j1 l -> R1 l = R1' (rename (sigma_of al) l)).
 Proof. exact validated_allocation_preserves_semantics. Qed.
 Print Assumptions regalloc_preserves_semantics.
+
+(* THE ALLOCATOR ITSELF, FOR EVERY PROGRAM.  The model of pass.Liveness and pass.AllocateRegisters
+   (the graph colouring of pass/alloc.go, literally: Add / AddInterference / update / mostrestricted /
+   alloc, one allocator per register kind, merged) is correct on every instruction sequence `is` with
+   successor lists `ss`: liveness terminates, and whenever the allocator returns an allocation `al`,
+   the program with every register renamed through `al` simulates the original in lock step, for
+   every instruction semantics F that respects the declared reads/writes (C04) — no value that can
+   still be read is ever overwritten.  Hypotheses: the register file lists physical IDs
+   (regfile_ok, discharged reflectively for the translated table on every run: Tab.regfile_ok_tab)
+   and a virtual register read or written by an instruction is one of its operands (evaluated on
+   the instructions of every case: discipline_ok).  The model allocator is compared with the
+   implementation's allocation on every case (R_mismatch), so this theorem speaks about the
+   allocation avo actually produced. *)
+Theorem model_regalloc_preserves_semantics :
+  forall (val memt : Type) (F : nat -> list val -> memt -> list val * memt * option nat)
+         (rf : regfile) (is : list instr) (ss : list (list (option nat))) (pg : prog) (al : AL),
+  regfile_ok rf = true -> length ss = length is -> virt_in_operands is ->
+  mk_prog is ss = OK pg ->
+  exists lvs pr, liveness (liveness_fuel pg) pg = Some lvs /\ regs_of is ss = OK pr /\
+  (allocate_registers rf is (List.map lout lvs) = OK al ->
+   (forall j i vs m outs m' n, List.nth_error (P pr) j = Some i -> F j vs m = (outs, m', Some n) -> In n (m_succ i)) ->
+   (forall j i vs m outs m' npc, List.nth_error (P pr) j = Some i -> F j vs m = (outs, m', npc) -> List.length outs = List.length (m_defs i)) ->
+   forall n j R R' m st1,
+     (forall l, LIn lvs j l -> R l = R' (rename (lookup_default al) l)) ->
+     mrun val memt F (P pr) n (j, R, m) = Some st1 ->
+     exists j1 R1 R1' m1, st1 = (j1, R1, m1)
+       /\ mrun val memt F (List.map (rename_instr (lookup_default al)) (P pr)) n (j, R', m) = Some (j1, R1', m1)
+       /\ (forall l, LIn lvs j1 l -> R1 l = R1' (rename (lookup_default al) l))).
+Proof. exact model_allocation_preserves_semantics. Qed.
+Print Assumptions model_regalloc_preserves_semantics.
+
+(* the colouring loop alone: the two ends of every interference edge get different physical
+   registers, for every interference graph *)
+Theorem colouring_separates_neighbours : forall fuel a al, awf a -> a_allocate fuel a = OK al ->
+  (forall x y, In (x, y) (a_edges a) -> phys (lookup_default al x) /\ phys (lookup_default al y) /\ lookup_default al x <> lookup_default al y)
+  /\ (forall v c, al !! v = Some c -> virt v /\ phys c /\ id_kind c = id_kind v)
+  /\ (forall v, is_Some (a_poss a !! v) -> is_Some (al !! v)).
+Proof. exact allocate_awf. Qed.
+Print Assumptions colouring_separates_neighbours.
 
 (* non-vacuity: two values live across each other's definitions must get different registers; the
    validator accepts a proper colouring and rejects sharing *)
